@@ -16,6 +16,7 @@ import (
 	"net/http/httptest"
 	"os"
 	"os/signal"
+	"reflect"
 	"regexp"
 	"strconv"
 	"strings"
@@ -34,7 +35,7 @@ func main() {
 		childMain(tier)
 		return
 	}
-	hk.Main(&hk.Component{Name: "rpcclients", Rule: "the three real clients (Streamable with JSON answers, Streamable with POST-SSE answers, legacy SSE, stdio against a re-executed child) receive the same scripted server answer for every result kind of initialize, tools/list, tools/call (text, image, audio, embedded resource, isError, structured, _meta, empty / null / missing content, 70 KiB - 1 MiB texts), prompts/list, prompts/get, resources/list, resources/read, for result null / {} and for JSON-RPC errors of every standard code; the returned values (JSON-normalised) or error class + code + message must be pairwise equal, and each equals the model's; non-trivial = a value or a JSON-RPC error was returned (ping has no client API)",
+	hk.Main(&hk.Component{Name: "rpcclients", Rule: "the three real clients (Streamable with JSON answers, Streamable with POST-SSE answers, legacy SSE, stdio against a re-executed child) receive the same scripted server answer for every result kind of initialize, tools/list, tools/call (text, image, audio, embedded resource, isError, structured, _meta, empty / null / missing content, 70 KiB - 1 MiB texts, numbers at the float64 / int64 edge in every numeric position), prompts/list, prompts/get, resources/list, resources/read, for result null / {} and for JSON-RPC errors of every standard code; the returned values (as Go values and as Go prints their typed fields; nothing is normalised through float64) or error class + code + message must be pairwise equal, and each equals the model's; non-trivial = a value or a JSON-RPC error was returned (ping has no client API)",
 		Run: run})
 }
 
@@ -270,8 +271,10 @@ type outcome struct {
 	Code    int
 	Message string
 	Why     string
-	Value   string // canonical JSON of the returned value
+	Value   string // canonical JSON of the returned value (its numbers as Go prints the typed fields: nothing is rounded here)
 	Err     string
+	Typed   any            // the value itself
+	Extra   map[string]any // numeric positions reported to the model
 }
 
 var rpcErrRe = regexp.MustCompile(`(?s)error: (.*) \(code: (-?\d+)\)$`)
@@ -310,6 +313,8 @@ func observe(v any, err error) outcome {
 		}
 		low := strings.ToLower(s)
 		switch {
+		case strings.Contains(low, "failed to parse response"):
+			o.Kind, o.Why = "failed", "undecodable" // ErrResponseParsing: the answer does not decode into Go values
 		case strings.Contains(low, "missing result"):
 			o.Kind, o.Why = "failed", "missing-result"
 		case strings.Contains(low, "no final response"):
@@ -336,7 +341,34 @@ func observe(v any, err error) outcome {
 	d.UseNumber()
 	d.Decode(&g)
 	cb, _ := json.Marshal(g)
-	return outcome{Kind: "ok", Value: string(cb)}
+	o := outcome{Kind: "ok", Value: string(cb), Typed: v, Extra: map[string]any{}}
+	rawOf := func(x any) any {
+		if x == nil {
+			return nil
+		}
+		b, err := json.Marshal(x)
+		if err != nil {
+			return nil
+		}
+		return json.RawMessage(b)
+	}
+	switch x := v.(type) {
+	case *mcp.CallToolResult:
+		// the untyped positions: the numbers are the float64 values the transport + decoder produced
+		o.Extra["structured"] = rawOf(x.StructuredContent)
+		if x.Meta != nil {
+			o.Extra["meta"] = rawOf(x.Meta)
+		} else {
+			o.Extra["meta"] = nil
+		}
+	case *mcp.ListResourcesResult:
+		sizes := []any{}
+		for _, r := range x.Resources {
+			sizes = append(sizes, r.Size)
+		}
+		o.Extra["sizes"] = sizes
+	}
+	return o
 }
 
 func (o outcome) model() map[string]any {
@@ -346,7 +378,11 @@ func (o outcome) model() map[string]any {
 	case "failed":
 		return map[string]any{"kind": "failed", "why": o.Why}
 	}
-	return map[string]any{"kind": o.Kind}
+	m := map[string]any{"kind": o.Kind}
+	for k, v := range o.Extra {
+		m[k] = v
+	}
+	return m
 }
 
 func (o outcome) brief() map[string]any {
@@ -375,6 +411,8 @@ func differ(a, b outcome) string {
 		return a.Kind + "-vs-" + b.Kind
 	case a.Kind == "ok" && a.Value != b.Value:
 		return "value-differs"
+	case a.Kind == "ok" && !reflect.DeepEqual(a.Typed, b.Typed):
+		return "typed-value-differs" // equal once printed as JSON, different as Go values
 	case a.Kind == "rpc-error" && a.Code != b.Code:
 		return "code-differs"
 	case a.Kind == "rpc-error" && a.Message != b.Message:
@@ -387,19 +425,17 @@ func differ(a, b outcome) string {
 
 // ---------------------------------------------------------------------------------------------------------------------
 
-// the answer as the model reads it (large texts shortened: the model does not depend on sizes)
+// the answer as it is on the wire, for the model (large texts shortened: the model does not depend on sizes) — the TEXT is
+// handed on, not a decoded value: decoding it here would round its numbers exactly as the code under test does
 func modelAnswer(sc scase) any {
 	small := sc
 	if small.Large > 0 {
 		small.Large = 24
 	}
-	var a any
 	if sc.Error != "" {
-		json.Unmarshal([]byte(fmt.Sprintf(`{"jsonrpc":"2.0","id":1,"error":%s}`, sc.Error)), &a)
-	} else {
-		json.Unmarshal([]byte(fmt.Sprintf(`{"jsonrpc":"2.0","id":1,"result":%s}`, small.resultText())), &a)
+		return json.RawMessage(fmt.Sprintf(`{"jsonrpc":"2.0","id":1,"error":%s}`, sc.Error))
 	}
-	return a
+	return json.RawMessage(fmt.Sprintf(`{"jsonrpc":"2.0","id":1,"result":%s}`, small.resultText()))
 }
 
 func run(c *hk.Ctx) {
@@ -471,12 +507,14 @@ func run(c *hk.Ctx) {
 			if !ok {
 				continue
 			}
-			if d := differ(ref, o); d != "" {
+			if d := differ(ref, o); d != "" && sc.Outside {
+				c.Count("outside:"+sc.Label+":"+k, true, map[string]any{"case": sc.Label, clientKinds[0]: ref.brief(), k: o.brief()}, "outside-the-statement-divergent")
+			} else if d != "" {
 				c.Violate(hk.Violation{Fingerprint: "rpcclients:" + sc.Method + ":" + d + ":" + clientKinds[0] + "-vs-" + k,
 					What:     fmt.Sprintf("for the same server answer (%s) the %s client and the %s client return different values", sc.Label, clientKinds[0], k),
 					Input:    map[string]any{"case": sc.Label, "method": sc.Method, "key": sc.Key, "answer_bytes": len(sc.resultText()) + len(sc.Error), "answer": clip(sc.resultText()+sc.Error, 300)},
 					Observed: map[string]any{clientKinds[0]: ref.brief(), k: o.brief()},
-					Expected: "equal values (JSON-normalised) or the same error class, code and message"})
+					Expected: "equal values (as Go values and printed as JSON, numbers as the typed fields hold them) or the same error class, code and message"})
 			}
 		}
 	}
